@@ -12,6 +12,7 @@ package equal
 //@ abstract: option-type
 
 //@ func (g *gen) field(thisField, thatField string, fieldType types.Type) (s string, err error)
+//@ thorough-arity: 4
 //@ abstract: expr classes=Cmp,Paren,Call
 //@ param thisField: classes=Primary,Star,Amp type=fieldType
 //@ param thatField: sameclass=thisField type=fieldType
@@ -24,6 +25,7 @@ package equal
 //@ o-ensures: [field] r <==> EqC(fieldType, thisField, thatField)
 
 //@ func (g *gen) genStatement(typ types.Type, this, that string) (err error)
+//@ thorough-arity: 4
 //@ abstract: stmt returns
 //@ param this: classes=Ident,Star type=typ
 //@ param that: sameclass=this type=typ
@@ -37,6 +39,7 @@ package equal
 //@ o-loop: when kind(typ)=Map 1: invariant forall k val :: visited(k) ==> k in that && EqC(elem(typ), this[k], that[k])
 
 //@ func (g *gen) genFunc(typs []types.Type) (err error)
+//@ thorough-arity: 4
 //@ param typs: len=2 identical
 //@ emits: decls
 //@ serves: equal len=2 typs=typs
@@ -45,6 +48,7 @@ package equal
 //@ o-ensures: [equal] r <==> EqTop(typs0, this, that)
 
 //@ func (g *gen) genCurriedFunc(typ types.Type) (err error)
+//@ thorough-arity: 4
 //@ emits: decls
 //@ serves: equal len=1 typ=typs[0]
 //@ o-sig: (this $typ) (r func($typ) bool)
